@@ -694,7 +694,7 @@ def run_check(prop, tier):
     base = core.base_seed()
     known = core.load_known()
     if tier == "quick":
-        njobs, nrep, rounds = (200, 16, 1) if prop != "C18" else (60, 24, 1)
+        njobs, nrep, rounds = (300, 48, 1) if prop != "C18" else (120, 40, 1)
     else:
         njobs, nrep, rounds = (300, 64, 6) if prop != "C18" else (150, 64, 3)
     if "DTSIM_RUNS" in os.environ:
